@@ -68,6 +68,21 @@ def features(files, folders, opts):
             f.add(k + "-partial")
     if any(x.get("ctime") is not None or x.get("atime") is not None for x in files):
         f.add("ctime/atime")
+    if opts.get("startpos"):
+        f.add("startpos")
+    if opts.get("archive_props"):
+        f.add("archive-props")
+    for fo in folders:
+        for c in fo["coders"]:
+            if c["m"] == RC.M_AES:
+                if not c.get("iv") and not c.get("salt"):
+                    f.add("aes-props-1byte")
+                elif c.get("salt"):
+                    f.add("aes-salt")
+                elif len(c.get("iv", "")) < 32:
+                    f.add("aes-short-iv")
+                if c.get("cycles") == 0x3F:
+                    f.add("aes-cycles-3f")
     if opts.get("substreams") == "omit":
         f.add("substreams-omitted")
     if opts.get("numunpack") == "always":
@@ -466,6 +481,18 @@ def _n_scrc(c):
     return c
 
 
+def _n_plain_aes(c):
+    ch = False
+    for chain in c["chains"]:
+        for cd in chain:
+            if cd["m"] == RC.M_AES and (cd.get("salt") or cd.get("iv") != "0102030405060708090a0b0c0d0e0f10" or cd.get("cycles") == 0x3F):
+                cd["salt"], cd["iv"] = "", "0102030405060708090a0b0c0d0e0f10"
+                if cd.get("cycles") == 0x3F:
+                    cd["cycles"] = 2
+                ch = True
+    return c if ch else None
+
+
 def _n_copy(c):
     if all(len(ch) == 1 and ch[0]["m"] == RC.M_COPY for ch in c["chains"]):
         return None
@@ -497,7 +524,8 @@ NEUTRALISERS = [
     ("pack_crc", _n_opts("pack_crc", False)), ("dummy", _n_opts("dummy", -1)), ("shortcut", _n_opts("defined_shortcut", True)),
     ("numunpack", _n_opts("numunpack", "auto")), ("substreams", _n_opts("substreams", "auto")), ("folders", _n_single_folder),
     ("interleave", _n_empties_last), ("fcrc", _n_fcrc), ("scrc", _n_scrc), ("attrs", _n_attrs), ("times", _n_times), ("zero", _n_nonzero),
-    ("emptyfiles", _n_no_empty_files), ("efvec", _n_opts("emptyfile_vec", "auto")),
+    ("emptyfiles", _n_no_empty_files), ("efvec", _n_opts("emptyfile_vec", "auto")), ("startpos", _n_opts("startpos", None)),
+    ("archive_props", _n_opts("archive_props", None)), ("aesprops", _n_plain_aes),
 ]
 
 
